@@ -41,9 +41,11 @@ def t():
 `
 
 // the child: one fresh Load + Run of //:default, as the CLI does
+var childPreferIndex bool
+
 func child(dir string) {
 	def, _ := label.Parse("//:default")
-	proj, err := dawn.Load(dir, &dawn.LoadOptions{Builtins: starlark.StringDict{"sh": starlark_sh.Module}})
+	proj, err := dawn.Load(dir, &dawn.LoadOptions{Builtins: starlark.StringDict{"sh": starlark_sh.Module}, PreferIndex: childPreferIndex})
 	if err != nil {
 		fmt.Println("RESULT load-error")
 		return
@@ -55,8 +57,14 @@ func child(dir string) {
 	fmt.Println("RESULT ok")
 }
 
-func runChild(dir string) (string, string) {
-	cmd := exec.Command(os.Args[0], "-child", dir)
+func runChild(dir string) (string, string) { return runChildP(dir, false) }
+
+func runChildP(dir string, prefer bool) (string, string) {
+	args := []string{"-child", dir}
+	if prefer {
+		args = append(args, "-prefer")
+	}
+	cmd := exec.Command(os.Args[0], args...)
 	var out, errb bytes.Buffer
 	cmd.Stdout, cmd.Stderr = &out, &errb
 	if err := cmd.Start(); err != nil {
@@ -162,13 +170,16 @@ func runRecords(r *rng, tier string) {
 	if res, _ := runChild(dir0); res != "ok" || logLines(dir0) != 1 {
 		violation("record-spurious", map[string]any{"stream": "rec", "stamp": stamp}, "second build of the unchanged tree: "+res)
 	}
-	if replayRecord == "" {
+	if replayRecord == "" && replayFault == nil {
 		envStream(orig, tier)
+	}
+	if replayFault != nil {
+		n = 0
 	}
 	var cases []recCase
 	// single-byte substitutions where the genuine record has an (empty) association list or tuple: the stamp still
 	// decodes, to an environment of a different shape
-	if replayRecord == "" {
+	if replayRecord == "" && replayFault == nil {
 		var flips []recCase
 		for p, b := range orig {
 			if b != ')' && b != 'N' && b != ']' {
@@ -326,6 +337,9 @@ func runRecords(r *rng, tier string) {
 	}
 	close(ch)
 	wg.Wait()
+	if replayRecord == "" {
+		runFileFaults(r, tier, dir0, mk)
+	}
 }
 
 // envStream: in-process Decode of corruptions of a GENUINE function-environment record with dawn's own envUnpickler as
